@@ -160,8 +160,13 @@ def build_lib(variant):
     akey = sha(*sorted(objs))[:16]
     ar = os.path.join(BUILD, variant, "libdj.%s.a" % akey)
     if not os.path.exists(ar):
-        for f in glob.glob(os.path.join(BUILD, variant, "libdj.*.a")):
-            os.unlink(f)
+        # keep the few most recent archives: another check (e.g. one running against a scratch worktree) may be using them
+        old_ars = sorted(glob.glob(os.path.join(BUILD, variant, "libdj.*.a")), key=os.path.getmtime)
+        for f in old_ars[:-3]:
+            try:
+                os.unlink(f)
+            except OSError:
+                pass
         tmp = ar + ".tmp%d" % os.getpid()
         r = subprocess.run(["ar", "rcs", tmp] + objs, stdout=subprocess.PIPE, stderr=subprocess.STDOUT, text=True)
         if r.returncode != 0:
@@ -199,7 +204,9 @@ def build_harness(name, sources, variant, extra_flags=(), libs=("-lrapidcheck", 
     exe = os.path.join(BUILD, variant, "bin", "%s.%s" % (name, bkey))
     if not os.path.exists(exe):
         os.makedirs(os.path.dirname(exe), exist_ok=True)
-        for f in glob.glob(os.path.join(BUILD, variant, "bin", name + ".*")):
+        # keep the few most recent binaries of this harness (concurrent checks against other trees may be running them)
+        old_bins = sorted((f for f in glob.glob(os.path.join(BUILD, variant, "bin", name + ".*")) if ".tmp" not in f), key=os.path.getmtime)
+        for f in old_bins[:-3]:
             try:
                 os.unlink(f)
             except OSError:
